@@ -1,4 +1,5 @@
 import TsrunVerif.Lemmas.CompileEq
+import TsrunVerif.Lemmas.CompileStmt
 import TsrunVerif.Lemmas.CompileNeed
 
 /-!
@@ -22,9 +23,9 @@ open TsrunVerif.RegAlloc
 section
 variable {V Err : Type} (sem : Sem V Err)
 
-/-- a throwing or halting instruction ends `run` -/
-theorem run_of_steps {C : List Op} {s s' : St V} (h : Steps sem C s s') (o : Out V Err)
-    (ho : step sem C s' = o) (hn : ∀ t, o ≠ .next t) : ∃ k, run sem C k s = some o := by
+/-- a halting instruction, or one that raises with no handler left, ends `run` -/
+theorem run_of_steps {C : List Op} {s s' : St V} (h : StepsH sem C s s') (o : Out V Err)
+    (ho : stepH sem C s' = o) (hn : ∀ t, o ≠ .next t) : ∃ k, run sem C k s = some o := by
   induction h with
   | refl s =>
     refine ⟨1, ?_⟩
@@ -79,11 +80,12 @@ theorem compileE_restores (e : Expr) (dst : Reg) (b b' : B) (hc : compileE e dst
     exact hr.2
 
 /-- **a program that completes**: if the reference semantics finishes statement `s` (within any
-    fuel) with environment `env'`, the compiled program halts with environment `env'` -/
+    fuel) with environment `env'`, the compiled program halts with environment `env'` and an empty
+    try stack -/
 theorem program_completes (s : Stmt) (code : List Op) (hc : compileProgram s = some code)
     (fuel : Nat) (env env' : Env V) (u : Unit) (h : evalS sem fuel s env = some (.ok u env'))
     (regs : Reg → V) :
-    ∃ k regs', run sem code k ⟨0, regs, env⟩ = some (.halt ⟨code.length - 1, regs', env'⟩) := by
+    ∃ k regs', run sem code k ⟨0, regs, env, []⟩ = some (.halt ⟨code.length - 1, regs', env', []⟩) := by
   rw [compileProgram_eq] at hc
   cases hb : codeS s 0 0 with
   | none => simp [hb] at hc
@@ -93,18 +95,19 @@ theorem program_completes (s : Stmt) (code : List Op) (hc : compileProgram s = s
     have emb : Embeds (body ++ [Op.halt]) 0 body := by
       have := Embeds.self [] body [Op.halt]
       simpa using this
-    obtain ⟨regs', hs, _⟩ := (codeS_ok sem fuel s 0 0 body hb _ emb regs env).1 u env' h
+    obtain ⟨regs', hs⟩ := (codeS_ok sem fuel s 0 0 body hb _ emb regs env []).1 u env' h
     simp only [Nat.zero_add] at hs
-    obtain ⟨k, hk⟩ := run_of_steps sem hs (.halt ⟨body.length, regs', env'⟩)
-      (by simp [step, exec1]) (by intro t; simp)
+    obtain ⟨k, hk⟩ := run_of_steps sem hs (.halt ⟨body.length, regs', env', []⟩)
+      (by simp [stepH, step, exec1]) (by intro t; simp)
     exact ⟨k, regs', by simpa using hk⟩
 
-/-- **a program that throws**: if the reference semantics throws `er` with environment `env'`
-    (the side effects made before the throw), the compiled program throws `er` with environment `env'` -/
+/-- **a program that throws**: if the reference semantics ends with an uncaught `er` and environment
+    `env'` (the side effects made before the throw, and by the handlers that ran), the compiled
+    program ends with the uncaught `er` and environment `env'` -/
 theorem program_throws (s : Stmt) (code : List Op) (hc : compileProgram s = some code)
     (fuel : Nat) (env env' : Env V) (er : Err) (h : evalS sem fuel s env = some (.thrown er env'))
     (regs : Reg → V) :
-    ∃ k pc regs', run sem code k ⟨0, regs, env⟩ = some (.throw er ⟨pc, regs', env'⟩) := by
+    ∃ k pc regs', run sem code k ⟨0, regs, env, []⟩ = some (.throw er ⟨pc, regs', env', []⟩) := by
   rw [compileProgram_eq] at hc
   cases hb : codeS s 0 0 with
   | none => simp [hb] at hc
@@ -114,9 +117,23 @@ theorem program_throws (s : Stmt) (code : List Op) (hc : compileProgram s = some
     have emb : Embeds (body ++ [Op.halt]) 0 body := by
       have := Embeds.self [] body [Op.halt]
       simpa using this
-    obtain ⟨pc, regs', hs, ht⟩ := (codeS_ok sem fuel s 0 0 body hb _ emb regs env).2 er env' h
-    obtain ⟨k, hk⟩ := run_of_steps sem hs _ ht (by intro t; simp)
+    obtain ⟨pc, regs', hs, ht⟩ := (codeS_ok sem fuel s 0 0 body hb _ emb regs env []).2 er env' h
+    obtain ⟨k, hk⟩ := run_of_steps sem hs (.throw er ⟨pc, regs', env', []⟩) (by simp [stepH, ht]) (by intro t; simp)
     exact ⟨k, pc, regs', hk⟩
+
+/-- **`try { … } catch { }` lets nothing escape**: whatever the block does - any statements, any
+    nesting, a throw at any depth of any expression - the statement completes normally, with the
+    side effects made before the throw -/
+theorem empty_catch_total (fuel : Nat) (body : List Stmt) (env : Env V) (r : Res V Err Unit)
+    (h : evalS sem fuel (.tryCatch body []) env = some r) : ∃ u env', r = .ok u env' := by
+  simp only [evalS] at h
+  split at h
+  · simp only [evalL, Option.some.injEq] at h
+    exact ⟨(), _, h.symm⟩
+  · rename_i hne
+    cases r with
+    | ok u env' => exact ⟨u, env', rfl⟩
+    | thrown er env' => exact absurd h (by intro h'; exact hne _ _ h')
 
 /-- the VM is deterministic in its fuel: more fuel never changes a result already reached -/
 theorem run_mono {C : List Op} : ∀ (k : Nat) (s : St V) (o : Out V Err), run sem C k s = some o →
@@ -124,7 +141,7 @@ theorem run_mono {C : List Op} : ∀ (k : Nat) (s : St V) (o : Out V Err), run s
   | 0, _, _, h, _ => by simp [run] at h
   | k + 1, s, o, h, j => by
     rw [show k + 1 + j = (k + j) + 1 by omega]
-    cases hstep : step sem C s with
+    cases hstep : stepH sem C s with
     | next s' =>
       simp only [run, hstep] at h ⊢
       exact run_mono k s' o h j
@@ -181,6 +198,7 @@ def intSem : Sem Int String where
     | .div => if b = 0 then .error "div0" else .ok (a / b)
     | _ => .ok 0
   refErr := fun x => "ReferenceError:" ++ x
+  ofVal := fun v => "thrown:" ++ toString v
 
 /-- `while (i < 5) { s += i * i; i++ }` -/
 def sumSquares : Stmt :=
@@ -188,13 +206,20 @@ def sumSquares : Stmt :=
     (.block [.expr (.asg "s" (.bin .add) (.bin .mul (.var "i") (.var "i"))), .expr (.upd "i" true false)])
 
 example : (codeS sumSquares 0 0).map List.length = some 20 := by decide
-example : (match (codeS sumSquares 0 0).bind (fun code => run intSem (code ++ [.halt]) 200 ⟨0, fun _ => 0, [("i", 0), ("s", 0)]⟩) with
+example : (match (codeS sumSquares 0 0).bind (fun code => run intSem (code ++ [.halt]) 200 ⟨0, fun _ => 0, [("i", 0), ("s", 0)], []⟩) with
     | some (.halt s) => s.env | _ => []) = [("i", 5), ("s", 30)] := by decide
 /-- a throw in the middle keeps the earlier side effect: `(x = 7, 1 / 0)` -/
 example : (match evalE intSem (.seq (.asg "x" .assign (.lit (.num 7))) (.bin .div (.lit (.num 1)) (.lit (.num 0)))) [("x", 0)] with
     | .thrown e env => (e, env) | _ => ("", [])) = ("div0", [("x", 7)]) := by decide
 example : (match (codeE (.seq (.asg "x" .assign (.lit (.num 7))) (.bin .div (.lit (.num 1)) (.lit (.num 0)))) 0 1 0).bind
-      (fun code => run intSem (code ++ [.halt]) 50 ⟨0, fun _ => 0, [("x", 0)]⟩) with
+      (fun code => run intSem (code ++ [.halt]) 50 ⟨0, fun _ => 0, [("x", 0)], []⟩) with
     | some (.throw e s) => (e, s.env) | _ => ("", [])) = ("div0", [("x", 7)]) := by decide
+/-- `try { x = 7; throw 1; x = 9 } catch { y = x }`: the handler runs, sees the side effect made before the throw -/
+def tryDemo : Stmt :=
+  .tryCatch [.expr (.asg "x" .assign (.lit (.num 7))), .throw_ (.lit (.num 1)), .expr (.asg "x" .assign (.lit (.num 9)))]
+    [.expr (.asg "y" .assign (.var "x"))]
+
+example : (match (codeS tryDemo 0 0).bind (fun code => run intSem (code ++ [.halt]) 100 ⟨0, fun _ => 0, [("x", 0), ("y", 0)], []⟩) with
+    | some (.halt s) => (s.env, s.hs) | _ => ([], [0])) = ([("x", 7), ("y", 7)], []) := by decide
 
 end TsrunVerif.Compile
